@@ -810,6 +810,90 @@ def gen_server_caps(ctx, rng, quick):
     return cases
 
 
+def plain_request(mi, path, body=b"", kind="none", nchunks=7, pad=0):
+    """A request in the simplest spelling + the handler event it must produce (deterministic: no random fields)."""
+    fields = [(b"Host", b"a")]
+    if pad:
+        fields.append((b"X-Pad", b"p" * pad))
+    if kind == "cl":
+        fields.append((b"Content-Length", b"%d" % len(body)))
+        tail = body
+    elif kind == "chunked":
+        fields.append((b"Transfer-Encoding", b"chunked"))
+        step = max(1, (len(body) + nchunks - 1) // nchunks)
+        tail = b"".join(b"%x\r\n" % len(body[i:i + step]) + body[i:i + step] + b"\r\n" for i in range(0, len(body), step)) + b"0\r\n\r\n"
+    else:
+        tail = b""
+    wire = METHODS[mi].encode() + b" " + path + b" HTTP/1.1\r\n" + b"".join(k + b": " + v + b"\r\n" for k, v in fields) + b"\r\n" + tail
+    return wire, "R/%d/%s/%s/%s" % (mi, hexs(path), show_headers(fields), digest(body))
+
+
+def gen_server_pipeline_offsets(ctx, rng, quick):
+    """The header-size limit is per request, not per extraction pass: requests pipelined behind more than MAX_HEADER_SIZE bytes
+    of earlier requests that are handled in the SAME handleIncomingData call must be extracted like any other.  Deterministic
+    shapes: a > 64 KiB first request (Content-Length / chunked in 7 chunks / header padding), first requests sized so that the
+    header terminator of the second request sits at absolute offset 65535 / 65536 / 65537 of the pass, followers with and
+    without a body, and many medium requests whose cumulative length passes 64 KiB - each delivered whole, and cut so that the
+    end of request 1 and the CRLFCRLF of request 2 arrive in the same segment."""
+    pipelines = []
+    follow = [plain_request(0, b"/two"), plain_request(1, b"/three", b"tail-body", "cl"), plain_request(2, b"/four", b"abcdefghij" * 3, "chunked", 3)]
+    body70k = bytes((i * 31 + 7) & 0xFF for i in range(70000))
+    pipelines.append(("cl-70000", [plain_request(1, b"/big", body70k, "cl")] + follow))
+    pipelines.append(("chunked-70000-in-7", [plain_request(1, b"/big", body70k, "chunked", 7)] + follow))
+    pipelines.append(("header-pad-65000+cl-2000", [plain_request(1, b"/big", body70k[:2000], "cl", pad=65000)] + follow[:1]))
+    pipelines.append(("two-big", [plain_request(1, b"/big1", body70k[:66000], "cl"), plain_request(3, b"/big2", body70k[:67000], "chunked", 5)] + follow[:2]))
+    second = plain_request(0, b"/two")
+    he2 = second[0].find(b"\r\n\r\n")
+    for target in (MAX_HEADER - 1, MAX_HEADER, MAX_HEADER + 1, MAX_HEADER + 2):
+        for kind in ("cl", "chunked"):
+            n = 60000
+            while True:                           # size request 1 so that request 2's terminator sits at `target`
+                first = plain_request(1, b"/fit", body70k[:n], kind, 7)
+                d = len(first[0]) + he2 - target
+                if d == 0:
+                    break
+                n -= d
+                if not 0 < n <= 70000:
+                    raise RuntimeError("cannot fit")
+            assert (first[0] + second[0]).find(b"\r\n\r\n", len(first[0])) == target
+            pipelines.append(("headerEnd2@%d-%s" % (target, kind), [first, second, plain_request(1, b"/three", b"xyz", "cl")]))
+    pipelines.append(("40-posts-of-2KiB", [plain_request(1, b"/m%d" % i, body70k[i:i + 2048], "cl") for i in range(40)]))
+    pipelines.append(("60-chunked-of-1.5KiB", [plain_request(2, b"/c%d" % i, body70k[i:i + 1500], "chunked", 3) for i in range(60)]))
+    pipelines.append(("200-gets", [plain_request(0, b"/g%d" % i, pad=300) for i in range(220)]))
+    cases = []
+    for name, reqs in pipelines:
+        stream = b"".join(r[0] for r in reqs)
+        ends, acc = [], 0
+        for r in reqs:
+            acc += len(r[0])
+            ends.append(acc)
+        e1 = ends[0]
+        seglist = [[stream],                                             # one pass over everything
+                   [stream[:e1 - 10], stream[e1 - 10:]],                  # end of request 1 + terminator of request 2 in one segment
+                   [stream[:e1 - 1], stream[e1 - 1:]],
+                   [stream[:e1], stream[e1:]],                            # request 2 in a later pass (never affected)
+                   [stream[:e1 + 3], stream[e1 + 3:]],
+                   [stream[i:i + 65536] for i in range(0, len(stream), 65536)],          # engine-sized reads
+                   [stream[i:i + 8192] for i in range(0, len(stream), 8192)]]
+        blocks, ops = [], []
+        for segs in seglist:
+            o = server_ops(segs)
+            want = ["ok"]
+            acc, k = 0, 0
+            for sgm in segs:
+                acc += len(sgm)
+                evs = []
+                while k < len(reqs) and acc >= ends[k]:
+                    evs += [reqs[k][1], "S:200"]
+                    k += 1
+                want.append("%s | io=- | buf=%d alive=1" % (",".join(evs) if evs else "-", acc - (ends[k - 1] if k else 0)))
+            blocks.append((len(ops), len(o), want))
+            ops += o
+        cases.append({"cat": "server-valid", "name": "pipeline-offsets:" + name, "ops": ops, "blocks": blocks, "stream_len": len(stream),
+                      "nreq": len(reqs), "nseg": len(blocks), "kinds": []})
+    return cases
+
+
 def gen_server_direct(ctx, rng, n):
     ops = []
     for name, b in [("wrap", b"ffffffffffffffec\r\nzz"), ("neg", b"-14\r\nzz"), ("ok", b"3\r\nabc\r\n0\r\n\r\n"), ("trailer", b"3\r\nabc\r\n0\r\nX-T: 1\r\n\r\n"),
@@ -992,6 +1076,10 @@ OBLIGATIONS = [
      "statement": "server: feeding a segmentation = greedy drain of the whole stream"},
     {"id": "C15_S2_generic", "theorem": "Iora.Framing.segmentation_independent", "kind": "proved",
      "statement": "greedy framing with a stable parser yields the same frames for every segmentation (shared theorem)"},
+    {"id": "C15_S3b2", "theorem": "Iora.C15.S3b_header_cap_per_request", "kind": "proved",
+     "statement": "server: the header-size cap applies to each request's own header block - every pipeline of requests with header <= MAX_HEADER_SIZE that fits the buffer cap is extracted completely, whatever the cumulative offset (example: 70000-byte first request, follower in the same pass)"},
+    {"id": "C15_gen_loop", "theorem": "Iora.C15.gen_extract_loop", "kind": "proved",
+     "statement": "Gen conformance: the statement skeleton of handleIncomingData's pipelining loop (what every offset is relative to: search from 0 of a buffer trimmed per request) is the one the model's extractOne/drainLoop were written from"},
     {"id": "C15_S3a", "theorem": "Iora.C15.S3_buffer_bounded", "kind": "proved",
      "statement": "server: session buffer <= MAX_BUFFER_SIZE; an exceeding read closes the connection unbuffered"},
     {"id": "C15_S3b", "theorem": "Iora.C15.S3_limits", "kind": "proved",
@@ -1027,6 +1115,7 @@ def gen_all(ctx, quick, scale):
     cases += gen_server_invalid(ctx, rng.fork("si"), quick)
     cases += gen_server_mutated(ctx, rng.fork("sm"), 300 * scale, quick)
     cases += gen_server_caps(ctx, rng.fork("sc"), quick)
+    cases += gen_server_pipeline_offsets(ctx, rng.fork("sp"), quick)
     cases += gen_server_direct(ctx, rng.fork("sd"), 200 * scale)
     return cases
 
